@@ -109,6 +109,13 @@ func verifC14NativeActionDir() {
 	if err := os.WriteFile(filepath.Join(tmp, "act", "index.js"), []byte(""), 0o644); err != nil {
 		panic(err)
 	}
+	// the same action at the repository root (uses: ./)
+	if err := os.WriteFile(filepath.Join(tmp, "action.yml"), []byte(verifC14ActionYAML), 0o644); err != nil {
+		panic(err)
+	}
+	if err := os.WriteFile(filepath.Join(tmp, "index.js"), []byte(""), 0o644); err != nil {
+		panic(err)
+	}
 }
 
 func verifC14Root() string { return verifC14Tmp }
@@ -213,7 +220,7 @@ func verifC02NativeFormat() {
 	}
 	must(os.WriteFile(filepath.Join(tmp, "r", ".github", "actionlint.yaml"), []byte("paths:\n  .github/workflows/a.yml:\n    ignore:\n      - undefined variable\n"), 0o644))
 	var paths []string
-	for k, name := range []string{"r/.github/workflows/a.yml", "r/.github/workflows/c.yml", "s/.github/workflows/b.yml"} {
+	for k, name := range []string{"r/.github/workflows/c.yml", "r/.github/workflows/a.yml", "s/.github/workflows/b.yml"} {
 		src := "on: push\njobs:\n"
 		n := 1
 		if k == 0 {
@@ -242,16 +249,31 @@ func verifC02NativeFormat() {
 		verifCheck(err == nil, "lint-failed")
 		alone += digest(errs)
 	}
+	defer runtime.GOMAXPROCS(runtime.GOMAXPROCS(0))
 	for rep := 0; rep < 10; rep++ {
+		runtime.GOMAXPROCS([]int{runtime.NumCPU(), 1, 2}[rep%3])
 		var buf bytes.Buffer
-		l, err := NewLinter(&buf, &LinterOptions{Format: "{{range $ := .}}{{$.Filepath}}\n{{end}}"})
+		l, err := NewLinter(&buf, &LinterOptions{Format: "BEGIN\n{{range $ := .}}{{$.Filepath}}\t{{$.Message}}\t{{json $.Snippet}}{{end}}"})
 		must(err)
 		errs, err := l.LintFiles(paths, nil)
 		verifCheck(err == nil, "lint-failed")
 		verifCheckf(digest(errs) == alone, "multi-file-result-differs-from-the-files-linted-alone", digest(errs)+" <> "+alone)
+		// the template is executed once per run, whatever the degree of parallelism
+		verifCheckf(strings.Count(buf.String(), "BEGIN\n") == 1, "result-depends-on-GOMAXPROCS", buf.String())
 		want, got := "c.yml\nb.yml\n", ""
-		for _, ln := range strings.Split(strings.TrimSuffix(buf.String(), "\n"), "\n") {
-			got += filepath.Base(ln) + "\n" // the printed path is relative to the working directory
+		for _, ln := range strings.Split(strings.TrimSuffix(strings.ReplaceAll(buf.String(), "BEGIN\n", ""), "\n"), "\n") {
+			f := strings.Split(ln, "\t")
+			got += filepath.Base(f[0]) + "\n" // the printed path is relative to the working directory
+			if len(f) == 3 {
+				// the snippet is the source line of the same file: it names the variable the message names
+				v := "unknown0"
+				for _, c := range []string{"unknown1", "unknown2"} {
+					if strings.Contains(f[1], c) {
+						v = c
+					}
+				}
+				verifCheckf(strings.Contains(f[2], v), "formatted-fields-of-a-multi-file-run-differ-from-the-files-formatted-alone", ln)
+			}
 		}
 		verifCheckf(got == want, "formatted-output-depends-on-goroutine-completion-order", buf.String())
 	}
@@ -354,4 +376,103 @@ func verifC02NativeRepeat(wf string) {
 	verifReach("compared")
 	verifCheck(len(r0) > 0, "baseline-lost-its-diagnostics")
 	verifCheckf(r0 == r1 && r0 == r2, "result-depends-on-how-many-times-the-run-is-repeated", r0+" <> "+r1+" <> "+r2)
+}
+
+// verifC10NativeSameActionPath: the same on a real tree, both argument orders, 1 / 2 / all processors.
+func verifC10NativeSameActionPath(wf string) {
+	tmp, err := os.MkdirTemp("", "verif-c10a-")
+	if err != nil {
+		panic(err)
+	}
+	defer os.RemoveAll(tmp)
+	tmp, _ = filepath.EvalSymlinks(tmp)
+	must := func(err error) {
+		if err != nil {
+			panic(err)
+		}
+	}
+	var paths []string
+	for _, r := range []string{"r", "s"} {
+		must(os.MkdirAll(filepath.Join(tmp, r, ".github", "workflows"), 0o755))
+		must(os.MkdirAll(filepath.Join(tmp, r, ".git"), 0o755))
+		must(os.MkdirAll(filepath.Join(tmp, r, "act"), 0o755))
+		must(os.WriteFile(filepath.Join(tmp, r, "act", "action.yml"), []byte("name: act\ndescription: d\noutputs:\n  "+r+"_out:\n    description: d\nruns:\n  using: node20\n  main: index.js\n"), 0o644))
+		must(os.WriteFile(filepath.Join(tmp, r, "act", "index.js"), []byte(""), 0o644))
+		p := filepath.Join(tmp, r, ".github", "workflows", map[string]string{"r": "a.yml", "s": "b.yml"}[r])
+		must(os.WriteFile(p, []byte(wf), 0o644))
+		paths = append(paths, p)
+	}
+	single := make([]string, 2)
+	for k, p := range paths {
+		l, err := NewLinter(io.Discard, &LinterOptions{})
+		must(err)
+		errs, err := l.LintFile(p, nil)
+		verifCheck(err == nil, "lint-failed")
+		single[k] = verifC10DigestAll(errs)
+		verifCheck(len(errs) == 1, "each-file-has-one-undefined-output")
+		other := []string{"\"s_out\"", "\"r_out\""}[k]
+		verifCheckf(len(errs) == 1 && strings.Contains(errs[0].Message, "property "+other), "file-checked-against-another-repository's-action", p)
+	}
+	defer runtime.GOMAXPROCS(runtime.GOMAXPROCS(0))
+	for rep := 0; rep < 12; rep++ {
+		runtime.GOMAXPROCS([]int{1, 2, runtime.NumCPU()}[rep%3])
+		args := []string{paths[0], paths[1]}
+		if rep%2 == 1 {
+			args = []string{paths[1], paths[0]}
+		}
+		l, err := NewLinter(io.Discard, &LinterOptions{})
+		must(err)
+		errs, err := l.LintFiles(args, nil)
+		verifCheck(err == nil, "lint-failed")
+		for k, p := range paths {
+			var mine []*Error
+			for _, e := range errs {
+				if filepath.Base(e.Filepath) == filepath.Base(p) {
+					mine = append(mine, e)
+				}
+			}
+			verifCheckf(verifC10DigestAll(mine) == single[k], "file-linted-together-differs-from-file-linted-alone", p)
+		}
+	}
+	verifReach("linted")
+}
+
+// verifC02NativeNested: the same on a real tree.
+func verifC02NativeNested() {
+	tmp, err := os.MkdirTemp("", "verif-c02n-")
+	if err != nil {
+		panic(err)
+	}
+	defer os.RemoveAll(tmp)
+	tmp, _ = filepath.EvalSymlinks(tmp)
+	must := func(err error) {
+		if err != nil {
+			panic(err)
+		}
+	}
+	var paths []string
+	for _, r := range []struct{ dir, label string }{{filepath.Join("o", "v", "i"), "runner-of-inner"}, {"o", "runner-of-outer"}} {
+		must(os.MkdirAll(filepath.Join(tmp, r.dir, ".github", "workflows"), 0o755))
+		must(os.MkdirAll(filepath.Join(tmp, r.dir, ".git"), 0o755))
+		must(os.WriteFile(filepath.Join(tmp, r.dir, ".github", "actionlint.yaml"), []byte("self-hosted-runner:\n  labels:\n    - "+r.label+"\n"), 0o644))
+		p := filepath.Join(tmp, r.dir, ".github", "workflows", "ci.yml")
+		must(os.WriteFile(p, []byte("on: push\njobs:\n  j:\n    runs-on: [self-hosted, "+r.label+"]\n    steps:\n      - run: echo\n"), 0o644))
+		paths = append(paths, p)
+	}
+	l, err := NewLinter(io.Discard, &LinterOptions{})
+	must(err)
+	digest := func(errs []*Error, err error) string {
+		verifCheck(err == nil, "lint-failed")
+		out := ""
+		for _, e := range errs {
+			out += filepath.Base(filepath.Dir(filepath.Dir(filepath.Dir(e.Filepath)))) + ":" + strconv.Itoa(e.Line) + ": " + e.Message + "\n"
+		}
+		return out
+	}
+	r1 := digest(l.LintFiles(paths, nil))
+	r2 := digest(l.LintFiles(paths, nil))
+	r3 := digest(l.LintFiles([]string{paths[1], paths[0]}, nil))
+	verifReach("compared")
+	verifCheckf(r1 == "", "file-checked-with-another-repository's-configuration", r1)
+	verifCheckf(r1 == r2 && r3 == "", "result-depends-on-how-many-times-the-run-is-repeated", r2+" / "+r3)
 }
